@@ -32,20 +32,24 @@ def events_for(rows):
                     "out": {"err": "", "tab": pj.stab_obs(tab), "gates": sg.gate_list_obs(circ)}})
     except Exception as ex:
         evs.append({"fn": "inverse_circuit", "a": 1, "out": pj.err_obs(ex)})
+    # the gate list of the inverse circuit is passed along as context: every tableau construction below is built from it,
+    # and the spec uses it to attribute a failure to the synthesis (known finding) rather than to the construction
+    ctx_gates = sg.gate_list_obs(circ) if circ is not None else []
     for name, f in (("clifford_from_stabilizer", lambda: clifford_from_stabilizer(st.copy())),
                     ("CliffordTableau(StabilizerTableau)", lambda: CliffordTableau(st.copy()))):
         try:
-            evs.append({"fn": "to_clifford", "via": name, "a": 1, "out": pj.tab_obs(f())})
+            evs.append({"fn": "to_clifford", "via": name, "a": 1, "ctx_gates": ctx_gates, "out": pj.tab_obs(f())})
         except Exception as ex:
-            evs.append({"fn": "to_clifford", "via": name, "a": 1, "out": pj.err_obs(ex)})
+            evs.append({"fn": "to_clifford", "via": name, "a": 1, "ctx_gates": ctx_gates, "out": pj.err_obs(ex)})
     if circ is not None:
         # running the returned list backwards from |0..0> must reproduce the state
         try:
             t0 = sfc.create_n_ket0_state(st.n_qubits)
-            evs.append({"fn": "to_clifford", "via": "run_circuit(reverse=True)", "a": 1,
+            evs.append({"fn": "to_clifford", "via": "run_circuit(reverse=True)", "a": 1, "ctx_gates": ctx_gates,
                         "out": pj.tab_obs(tr.run_circuit(t0, list(circ), reverse=True))})
         except Exception as ex:
-            evs.append({"fn": "to_clifford", "via": "run_circuit(reverse=True)", "a": 1, "out": pj.err_obs(ex)})
+            evs.append({"fn": "to_clifford", "via": "run_circuit(reverse=True)", "a": 1, "ctx_gates": ctx_gates,
+                        "out": pj.err_obs(ex)})
     return o, evs
 
 
@@ -82,6 +86,14 @@ def run(ctx):
             tid += 1
             total_sets += 1
             traces.append({"tid": tid, "meta": {"kind": "state", "n": 4}, "states": [o], "events": evs})
+    # 5-qubit states: sampled (random Clifford circuit, random re-gauging); the synthesis has a rare failure from n = 5 on
+    from drivers import c07
+    for _ in range(400 if ctx.quick else 12000):
+        rows = c07.sampled_tableau_rows(rng, 5, rng.randint(10, 40))[5:]
+        o, evs = events_for(sg.random_regauge(rng, rows))
+        tid += 1
+        total_sets += 1
+        traces.append({"tid": tid, "meta": {"kind": "state", "n": 5}, "states": [o], "events": evs})
     ctx.extra["generating_sets_fed"] = total_sets
     # graph leg: all labelled graphs n <= 4 (quick) / n <= 5 (thorough)
     ng = 0
